@@ -91,8 +91,11 @@ func Gen(t *rapid.T) Case {
 		if op.Param {
 			rq.Param = rapid.SampledFrom([]string{"ok", "ok", "ok", "missing", "bad"}).Draw(t, "paramval")
 		}
-		if r := rapid.IntRange(0, 19).Draw(t, "route"); r < 2 {
-			rq.Route = []string{"notfound", "wrongmethod"}[r]
+		switch rapid.IntRange(0, 19).Draw(t, "route") { // rapid favours the ends of a range: the rare classes sit inside
+		case 7:
+			rq.Route = "notfound"
+		case 13:
+			rq.Route = "wrongmethod"
 		}
 		rq.Outcome = rapid.SampledFrom(outcomes).Draw(t, "outcome")
 		switch rq.Outcome {
